@@ -762,8 +762,8 @@ pub fn c18_check(rep: &mut Report, c: &StreamCase, s: &S, rng: &mut Rng) {
 
 pub fn run(prop: &str, ctx: &Ctx, rep: &mut Report) {
     let n = match prop {
-        "C18" => ctx.tier.pick(10, 8000, 400_000),
-        _ => ctx.tier.pick(30, 4000, 200_000),
+        "C18" => ctx.tier.pick(10, 8000, 1_000_000),
+        _ => ctx.tier.pick(30, 4000, 400_000),
     };
     let n_default = match prop {
         "C18" => 0,
